@@ -336,6 +336,12 @@ struct HeldInfo {
     written: Vec<u8>,
 }
 
+/// component-wise normal form of a relative path spelling (`a/`, `a//b`, `./a`, `a/.` → `a`, `a/b`, `a`, `a`)
+fn norm_rel(p: &[u8]) -> Vec<u8> {
+    let comps: Vec<&[u8]> = p.split(|b| *b == b'/').filter(|c| !c.is_empty() && *c != b".").collect();
+    comps.join(&b'/')
+}
+
 fn is_ancestor_or_self(b: &[u8], t: &[u8]) -> bool {
     b.is_empty() || t == b || (t.len() > b.len() && t.starts_with(b) && t[b.len()] == b'/')
 }
@@ -375,12 +381,23 @@ fn do_seq(rep: &mut Report, sc: &Scratch, k: &mut u64, toks: &[String]) {
             "A" | "K" => {
                 let h: u64 = f[1].parse().expect("handle");
                 let rel = hx(2);
-                let boundary = if f[3] == "n" { None } else { Some(hx(3)) };
+                let boundary_raw = if f[3] == "n" { None } else { Some(hx(3)) };
+                let boundary = boundary_raw.as_ref().map(|b| norm_rel(b));
                 let before = snapshot(&root);
                 for v in held.values_mut() {
                     v.undisturbed = false;
                 }
-                let babs = boundary.as_ref().map(|b| p_of(&root, b));
+                // the spelling is handed to the library as it is: `root/a/`, `root/a//b`, `root/./a`, `root/.`
+                let babs = boundary_raw.as_ref().map(|b| {
+                    if b.is_empty() {
+                        root.clone()
+                    } else {
+                        let mut v = root.as_os_str().as_bytes().to_vec();
+                        v.push(b'/');
+                        v.extend_from_slice(b);
+                        PathBuf::from(OsStr::from_bytes(&v))
+                    }
+                });
                 let abs = p_of(&root, &rel);
                 let r = catch(|| {
                     if f[0] == "A" {
@@ -509,6 +526,15 @@ fn do_seq(rep: &mut Report, sc: &Scratch, k: &mut u64, toks: &[String]) {
                         let HeldInfo { held: hd, resource, boundary, before, undisturbed, .. } = info;
                         drop(hd);
                         rep.oracle_checked();
+                        if !root.is_dir() {
+                            fail(rep, format!("token {ti}: dropping the lock of {} removed the directory above the boundary ({:?}) — the scenario root itself is gone", hex(&resource), boundary.as_ref().map(|b| hex(b))));
+                            let _ = std::fs::create_dir_all(&root);
+                        }
+                        if let Some(b) = &boundary {
+                            if pre.get(b) == Some(&Node::Dir) && !p_of(&root, b).is_dir() {
+                                fail(rep, format!("token {ti}: dropping the lock of {} removed the boundary directory {} itself", hex(&resource), hex(b)));
+                            }
+                        }
                         let post = snapshot(&root);
                         let mut lock = resource.clone();
                         lock.extend_from_slice(DOT_LOCK);
@@ -663,6 +689,33 @@ fn gen_seq(r: &mut Rng) -> Vec<String> {
                         hex(&anc)
                     }
                     _ => hex(b"a"),
+                };
+                // the boundary directory may be spelled in a non-normalised way
+                let b = if b != "n" && r.chance(1, 3) {
+                    let nb = unhex(&b).unwrap_or_default();
+                    let v: Vec<u8> = if nb.is_empty() {
+                        r.pick(&[&b"."[..], b"./", b"./."]).to_vec()
+                    } else {
+                        match r.below(5) {
+                            0 | 1 => [&nb[..], b"/"].concat(),
+                            2 => [b"./", &nb[..]].concat(),
+                            3 => [&nb[..], b"/."].concat(),
+                            _ => {
+                                let mut v = Vec::new();
+                                for c in &nb {
+                                    v.push(*c);
+                                    if *c == b'/' {
+                                        v.push(b'/');
+                                    }
+                                }
+                                v.extend_from_slice(b"//");
+                                v
+                            }
+                        }
+                    };
+                    hex(&v)
+                } else {
+                    b
                 };
                 let kind = if r.chance(4, 5) { "A" } else { "K" };
                 toks.push(format!("{kind}:{next_h}:{}:{b}", hex(&p)));
@@ -998,6 +1051,13 @@ fn main() {
         "A:1:72:n A:2:722e6c6f636b:n W:2:79 C:2 W:1:7a C:1",
         // boundary not containing the lock directory: nothing is removed
         "A:1:622e632f72:61 D:1",
+        // boundary spelled `a/`, `./a`, `a//`, `a/.` and the scenario root spelled `.`: it stays, and so does everything above
+        "A:1:612f622f72:612f D:1",
+        "A:1:612f622f632f72:2e2f61 D:1",
+        "A:1:612f622f72:612f2f D:1",
+        "A:1:612f622f72:612f2e W:1:78 D:1",
+        "A:1:612f72:2e D:1",
+        "G:61 A:1:612f622f632f72:612f2f622f D:1",
     ];
     for s in fixed_seqs {
         let toks: Vec<String> = s.split(' ').map(|x| x.to_string()).collect();
